@@ -42,6 +42,12 @@ struct uvec {
   void clear() { n = 0; }
   void push_back(unsigned v) { __CPROVER_assert(n < UCAP, "stub capacity (vector)"); if (n < UCAP) { d[n] = v; n = n + 1; } }
 };
+struct ivec {            /* std::vector<int> */
+  int d[UCAP]; unsigned n;
+  ivec(unsigned k, int v) { __CPROVER_assert(k <= UCAP, "stub capacity (vector)"); n = k; for (unsigned i = 0; i < UCAP; i++) d[i] = v; }
+  unsigned size() const { return n; }
+  int &operator[](unsigned i) { __CPROVER_assert(i < n, "vector index in bounds"); return d[i < UCAP ? i : 0]; }
+};
 template <class T> T &std_move(T &t) { return t; }
 inline unsigned numeric_cast_unsigned(unsigned x) { return x; }
 extern "C" void stub_partial_sum(unsigned *d, unsigned n) { unsigned acc = 0; for (unsigned i = 0; i < UCAP; i++) if (i < n) { acc = acc + d[i]; d[i] = acc; } }
